@@ -105,7 +105,10 @@ Inductive aggsel := ASNil | ASDefault | ASDrop | ASSum | ASLast | ASHist | ASExp
     (name, version, schema URL) of the meter that created it. *)
 Record inst := {
   i_name : bytes; i_desc : bytes; i_unit : bytes; i_kind : ikind; i_float : bool;
-  i_sname : bytes; i_sver : bytes; i_surl : bytes
+  i_sname : bytes; i_sver : bytes; i_surl : bytes;
+  (** what the reader's aggregation selector returns for this instrument's kind (ASNil / ASDefault:
+      nothing special): the [readerAggregation] argument that inserter.Instrument receives with the instrument *)
+  i_rsel : aggsel
 }.
 
 (** NewView(criteria, mask): criteria name (may hold the wildcards * and ?), description, kind, unit,
@@ -189,7 +192,7 @@ Definition ident (i : inst) (r : sreq) : sid :=
 Definition qualified (i : inst) (n : bytes) : bytes :=
   i_sname i ++ [0] ++ i_sver i ++ [0] ++ i_surl i ++ [0] ++ n.
 
-(** DefaultAggregationSelector, and what nil / Default resolve to (readers here use the default selector). *)
+(** DefaultAggregationSelector *)
 Definition default_agg (k : ikind) : aggsel :=
   match k with
   | KCounter | KUpDown | KObsCounter | KObsUpDown => ASSum
@@ -197,8 +200,19 @@ Definition default_agg (k : ikind) : aggsel :=
   | KHistogram => ASHist
   end.
 
-Definition resolve_agg (a : aggsel) (k : ikind) : aggsel :=
-  match a with ASNil | ASDefault => default_agg k | _ => a end.
+(** inserter.readerDefaultAggregation: nil or Default from the reader's selector mean the default selector. *)
+Definition reader_agg (i : inst) : aggsel :=
+  match i_rsel i with ASNil | ASDefault => default_agg (i_kind i) | a => a end.
+
+(** cachedAggregator's three-way resolution of Stream.Aggregation: nil (no aggregation in the view, or the
+    implicit default view) falls back to the READER's aggregation for the kind; an explicit
+    AggregationDefault{} means DefaultAggregationSelector(kind) whatever the reader prefers; anything else is used as it is. *)
+Definition resolve_agg (a : aggsel) (i : inst) : aggsel :=
+  match a with
+  | ASNil => reader_agg i
+  | ASDefault => default_agg (i_kind i)
+  | _ => a
+  end.
 
 (** isAggregatorCompatible *)
 Definition compatible (k : ikind) (a : aggsel) : bool :=
@@ -225,8 +239,8 @@ Definition akind_of (k : ikind) (a : aggsel) : option akind :=
   | ASNil | ASDefault => None
   end.
 
-Definition req_compatible (i : inst) (r : sreq) : bool := compatible (i_kind i) (resolve_agg (r_agg r) (i_kind i)).
-Definition req_akind (i : inst) (r : sreq) : option akind := akind_of (i_kind i) (resolve_agg (r_agg r) (i_kind i)).
+Definition req_compatible (i : inst) (r : sreq) : bool := compatible (i_kind i) (resolve_agg (r_agg r) i).
+Definition req_akind (i : inst) (r : sreq) : option akind := akind_of (i_kind i) (resolve_agg (r_agg r) i).
 
 (** ** Whole-pipeline histories *)
 Inductive event :=
